@@ -406,5 +406,19 @@ fn mentions_fn_lifetime(predicate: &syn::WherePredicate, generics: &syn::Generic
 fn extract_trait_bounds(
     bounds: &syn::punctuated::Punctuated<syn::TypeParamBound, syn::token::Plus>,
 ) -> Vec<syn::TypeParamBound> {
-    bounds.iter().cloned().collect()
+    bounds
+        .iter()
+        // A relaxed bound (`?Sized`) lifts a requirement from the function's parameter.
+        // There is nothing it could say about `Self`, where it would not be permitted either.
+        .filter(|bound| {
+            !matches!(
+                bound,
+                syn::TypeParamBound::Trait(syn::TraitBound {
+                    modifier: syn::TraitBoundModifier::Maybe(_),
+                    ..
+                })
+            )
+        })
+        .cloned()
+        .collect()
 }
